@@ -39,6 +39,9 @@ def split_call_macro(text: str, start: int) -> tuple[list[str], int]:
             i = j
             continue
         if c == "\\":
+            if text.startswith("\\\n", i):  # a line continuation is text like any other
+                i += 2
+                continue
             raise Unsupported("backslash outside a string")
         if c in _PAIR:
             stack.append(_PAIR[c])
